@@ -66,7 +66,7 @@ static const convn_t convn_table[] = {
 #define NCONVN 9
 #define NMAX 6
 #define NZ0N 8
-#define NMATN 12
+#define NMATN 14
 
 static int n_entry(int tier) { return tier ? 7 : 3; }
 static int n_mats(int tier)
@@ -355,6 +355,30 @@ static void gen_matn(int n, int type, int k, double complex *m)
 	    for (int i = 0; i < n * n; ++i)
 		m[i] = v;
 	}
+	return;
+    }
+    if (k == 12 || k == 13) {
+	/*
+	 * an ideal open (k = 12: first diagonal entry exactly +1 in S units,
+	 * i.e. the port sees an open circuit) or an ideal short (-1) on port
+	 * 1 that is still coupled to the other ports: I - S and conj(z0) + S z0
+	 * then begin with an exact zero, which routes skipping leading zeros
+	 * must handle per column.  (Z and Y inputs get an ordinary matrix
+	 * here: -1/z0 as an admittance is on the singular set of the route
+	 * through S that vnaconv(3) defines the input impedance by.)
+	 */
+	for (int i = 0; i < n; ++i)
+	    for (int j = 0; j < n; ++j) {
+		double complex v = vf_cunit(1000 + (uint64_t)k * 64 +
+			(uint64_t)n, (uint64_t)(i * 8 + j));
+		if (type == PT_S)
+		    v *= 0.5 / n;
+		else if (i == j)
+		    v += 1.0 + 0.5 * n;
+		m[i * n + j] = v * sc;
+	    }
+	if (type == PT_S)
+	    m[0] = k == 12 ? 1.0 : -1.0;
 	return;
     }
     if (k == 10) {
